@@ -491,7 +491,7 @@ def build_cia(contents, *, title_id, titlekey, common_key_x, common_key_index=0,
 # ---------------------------------------------------------------------------------------------------------------------
 # CCI / NCSD
 
-def build_cci(partitions, *, media_id=0x0004000000012300, image_size_units=None, gaps=None):
+def build_cci(partitions, *, media_id=0x0004000000012300, image_size_units=None, gaps=None, first_unit=None, order=None):
     for i in partitions:
         if not 0 <= i <= 7:
             raise ValueError('partition index must be 0..7')
@@ -500,11 +500,13 @@ def build_cci(partitions, *, media_id=0x0004000000012300, image_size_units=None,
     if isinstance(gaps, int):
         gaps = {i: gaps for i in range(8)}
 
-    first = 0x4000 // MEDIA_UNIT
+    # retail images start their first partition at 0x4000; the format only needs it to lie behind the header areas (0x1500)
+    first = 0x4000 // MEDIA_UNIT if first_unit is None else int(first_unit)
+    assert first * MEDIA_UNIT >= 0x1600
     table = [(0, 0)] * 8
     cur = first
     padded = {}
-    for i in sorted(partitions):
+    for i in (list(order) if order is not None else sorted(partitions)):      # order of placement in the file
         p = _pad(bytes(partitions[i]), MEDIA_UNIT)
         padded[i] = p
         cur += int(gaps.get(i, 0))
@@ -532,8 +534,7 @@ def build_cci(partitions, *, media_id=0x0004000000012300, image_size_units=None,
     dev_info = pattern(0x300, 'ncsd/dev_info')
 
     image = bytearray(bytes(hdr) + card_info + dev_info)
-    image += b'\xFF' * (0x4000 - len(image))
-    for i in sorted(partitions):
+    for i in sorted(partitions, key=lambda i: table[i][0]):
         o, s = table[i]
         image += b'\xFF' * (o * MEDIA_UNIT - len(image))
         image += padded[i]
